@@ -1,5 +1,6 @@
-(* Proofs/LifecycleInv.v — the invariant of a run in which no reply is ever left in the socket for a
-   later request ([late_reply_free]): the driver's idea of its connection agrees with the target's
+(* Proofs/LifecycleInv.v — the invariant of every run (any fault schedule: since a failed send or
+   receive abandons the transport, no reply is ever left in the socket for a later request): the
+   driver's idea of its connection agrees with the target's
    tables, every SendUnitData frame delivered finds its session and connection, and a standard
    Forward Open is only attempted after a Large one the target did not grant (property C10). *)
 From Coq Require Import ZifyBool.
@@ -81,61 +82,92 @@ Notation world := (world (S := S)).
 Notation st := (st (S := S)).
 Notation tev := (tev (S := S)).
 
-(* ================================================================ one exchange when no reply can arrive late *)
+(* ================================================================ one exchange *)
+(* [drv_send] either fails — the transport is abandoned: driver reset, socket closed, at most the
+   frame was delivered (or the peer vanished) before — or the frame was delivered and, when a reply
+   is expected, the reply read is the target's reply to THIS frame *)
 Inductive sent (s : st) (fr : bytes) (nr : bool) (s' : st) (r : res (option bytes)) : Prop :=
-  | SentNot (e : exn)
-      (Hr : r = Err e) (Hd : snd s' = snd s) (Ht : w_t (fst s') = w_t (fst s))
-      (Htr : w_trace (fst s') = w_trace (fst s)) (Hdead : w_dead (fst s') = w_dead (fst s))
-      (Hopen : w_open (fst s') = w_open (fst s)) (Hq : w_queue (fst s') = []) (Hrands : w_rands (fst s') = w_rands (fst s))
-  | SentVanish (e : exn)
-      (Hr : r = Err e) (Hd : snd s' = snd s) (Ht : w_t (fst s') = tclosed (w_t (fst s)))
-      (Htr : w_trace (fst s') = TVanish :: w_trace (fst s)) (Hdead : w_dead (fst s') = true)
-      (Hopen : w_open (fst s') = w_open (fst s)) (Hq : w_queue (fst s') = []) (Hrands : w_rands (fst s') = w_rands (fst s))
+  | SentFail (e : exn) (mid closing : list tev)
+      (Hr : r = Err e) (Hd : snd s' = reset_driver (snd s))
+      (Htr : w_trace (fst s') = closing ++ mid ++ w_trace (fst s))
+      (Hmid : mid = [] \/ mid = [TVanish]
+              \/ (w_open (fst s) = true /\ w_dead (fst s) = false
+                  /\ mid = [TDeliver (w_t (fst s)) fr (snd (tstep h (w_t (fst s)) fr))]))
+      (Hclosing : closing = [] \/ exists n, closing = [TSockClose n])
+      (Hq : w_queue (fst s') = []) (Hrands : w_rands (fst s') = w_rands (fst s))
   | SentDelivered
       (Hwo : w_open (fst s) = true) (Hwd : w_dead (fst s) = false)
       (Hd : snd s' = snd s) (Ht : w_t (fst s') = fst (tstep h (w_t (fst s)) fr))
       (Htr : w_trace (fst s') = TDeliver (w_t (fst s)) fr (snd (tstep h (w_t (fst s)) fr)) :: w_trace (fst s))
       (Hdead : w_dead (fst s') = false) (Hopen : w_open (fst s') = true) (Hq : w_queue (fst s') = [])
       (Hrands : w_rands (fst s') = w_rands (fst s))
+      (Hok : exists o, r = Ok o)
       (Hreply : forall raw, r = Ok (Some raw) -> snd (tstep h (w_t (fst s)) fr) = Some raw)
       (Hnone : r = Ok None -> nr = true).
 
-Lemma late_free_lookups flt k : late_reply_free flt = true ->
-  flookup k (f_send_after flt) = None /\ flookup k (f_recv flt) = None.
+Lemma abandon_trace flt (w : world) d :
+  w_queue (fst (abandon_transport flt (w, d))) = (if d_sock d then [] else w_queue w)
+  /\ w_rands (fst (abandon_transport flt (w, d))) = w_rands w
+  /\ snd (abandon_transport flt (w, d)) = reset_driver d
+  /\ exists closing, w_trace (fst (abandon_transport flt (w, d))) = closing ++ w_trace w
+                     /\ (closing = [] \/ exists n, closing = [TSockClose n]).
 Proof.
-  unfold late_reply_free. destruct (f_send_after flt); [| discriminate]. destruct (f_recv flt); [| discriminate].
-  intros _. split; reflexivity.
+  unfold abandon_transport. destruct (d_sock d); cbn [fst snd].
+  - unfold sock_close. destruct (flookup (w_nclose w) (f_close flt)); cbn [fst w_queue w_rands w_trace];
+      (split; [reflexivity |]; split; [reflexivity |]; split; [reflexivity |]);
+      eexists; (split; [| right; eexists; reflexivity]); reflexivity.
+  - split; [reflexivity |]. split; [reflexivity |]. split; [reflexivity |]. exists []. split; [reflexivity | left; reflexivity].
 Qed.
 
 Lemma drv_send_sent flt (s : st) fr nr :
-  late_reply_free flt = true -> w_queue (fst s) = [] ->
+  w_queue (fst s) = [] ->
   (nr = true -> forall t, snd (tstep h t fr) = None) ->
   sent s fr nr (fst (drv_send h flt s (Ok fr) nr)) (snd (drv_send h flt s (Ok fr) nr)).
 Proof.
-  intros Hlate Hq Hnr. destruct s as [w d]. cbn [fst snd] in *.
+  intros Hq Hnr. destruct s as [w d]. cbn [fst snd] in *.
+  (* failure after the world moved to [w1] with trace [mid ++ trace w] *)
+  assert (forall (w1 : world) mid,
+            w_trace w1 = mid ++ w_trace w -> w_rands w1 = w_rands w -> (d_sock d = false -> w_queue w1 = []) ->
+            (mid = [] \/ mid = [TVanish]
+             \/ (w_open w = true /\ w_dead w = false /\ mid = [TDeliver (w_t w) fr (snd (tstep h (w_t w) fr))])) ->
+            sent (w, d) fr nr (abandon_transport flt (w1, d)) (Err CommError)) as Hfail.
+  { intros w1 mid Htr Hr Hq1 Hmid.
+    destruct (abandon_trace flt w1 d) as (A1 & A2 & A3 & closing & A4 & A5).
+    eapply (SentFail _ _ _ _ _ CommError mid closing); cbn [fst snd]; try assumption; try reflexivity.
+    - rewrite A4, Htr. reflexivity.
+    - rewrite A1. destruct (d_sock d); [reflexivity | apply Hq1; reflexivity].
+    - congruence. }
   unfold drv_send, tx. destruct (d_sock d) eqn:Ek.
-  2: { cbn [fst snd wrap_all]. eapply SentNot; try reflexivity. exact Hq. }
+  2: { cbn [fst snd]. apply (Hfail w []); auto. }
   unfold sock_send.
-  destruct (late_free_lookups flt (w_nsend w) Hlate) as [La _].
   destruct (negb (w_open w) || w_dead w) eqn:E1.
-  { cbn [fst snd wrap_all]. eapply SentNot; try reflexivity. exact Hq. }
+  { cbn [fst snd]. apply (Hfail _ []); cbn [w_trace w_rands]; auto; try (intros; congruence). }
   assert (w_open w = true /\ w_dead w = false) as [Ho Hdd] by (destruct (w_open w), (w_dead w); auto; discriminate).
   destruct (fmem (w_nsend w) (f_vanish flt)).
-  { cbn [fst snd wrap_all]. eapply SentVanish; try reflexivity. }
+  { cbn [fst snd]. apply (Hfail _ [TVanish]); cbn [w_trace w_rands]; auto; try (intros; congruence). }
   destruct (flookup (w_nsend w) (f_send flt)) as [fk |].
-  { cbn [fst snd]. destruct fk; cbn [exn_of wrap_all fst snd]; eapply SentNot; try reflexivity; exact Hq. }
-  destruct (tstep h (w_t w) fr) as [t' rep] eqn:Et. rewrite La. cbn [wrap_all].
+  { cbn [fst snd]. apply (Hfail _ []); cbn [w_trace w_rands]; auto; try (intros; congruence). }
+  destruct (tstep h (w_t w) fr) as [t' rep] eqn:Et.
+  assert (forall w1, w_trace w1 = TDeliver (w_t w) fr rep :: w_trace w -> w_rands w1 = w_rands w ->
+            sent (w, d) fr nr (abandon_transport flt (w1, d)) (Err CommError)) as Hfail2.
+  { intros w1 Htr Hr. apply (Hfail w1 [TDeliver (w_t w) fr rep]); auto 10; try (intros; congruence). }
+  destruct (flookup (w_nsend w) (f_send_after flt)) as [fk |].
+  { cbn [fst snd]. apply Hfail2; reflexivity. }
+  cbn [fst snd].
   destruct nr.
   - (* no reply expected, and none comes *)
     cbn [fst snd]. specialize (Hnr eq_refl (w_t w)). rewrite Et in Hnr. cbn [snd] in Hnr. subst rep.
     eapply SentDelivered; cbn [fst snd w_t w_trace w_dead w_open w_queue w_rands]; try reflexivity; try assumption;
-      try (rewrite Et; reflexivity); intros; discriminate.
+      try (rewrite Et; reflexivity); try (eexists; reflexivity); intros; discriminate.
   - unfold rx. cbn [snd fst]. rewrite Ek. unfold sock_recv.
     cbn [w_open w_dead w_nrecv w_queue]. rewrite Ho, Hdd. cbn [negb orb].
-    destruct (late_free_lookups flt (w_nrecv w) Hlate) as [_ Lr]. rewrite Lr, Hq.
-    destruct rep as [rp |]; [destruct (fmem (w_nsend w) (f_drop flt)) |]; cbn [app fst snd wrap_all];
-      eapply SentDelivered; cbn [fst snd w_t w_trace w_dead w_open w_queue w_rands]; try reflexivity; try assumption;
-      try (rewrite Et; reflexivity); try (intros; discriminate).
+    destruct (flookup (w_nrecv w) (f_recv flt)) as [fk |].
+    { cbn [fst snd]. apply Hfail2; reflexivity. }
+    rewrite Hq.
+    destruct rep as [rp |]; [destruct (fmem (w_nsend w) (f_drop flt)) |]; cbn [app fst snd];
+      try (apply Hfail2; reflexivity).
+    eapply SentDelivered; cbn [fst snd w_t w_trace w_dead w_open w_queue w_rands]; try reflexivity; try assumption;
+      try (rewrite Et; reflexivity); try (eexists; reflexivity); try (intros; discriminate).
     intros raw H. inversion H; subst. rewrite Et. reflexivity.
 Qed.
 
@@ -200,6 +232,9 @@ Definition Inv (s : st) : Prop := Inv0 s /\ iconn s.
 Lemma has_refused_cons e tr : has_refused_large tr -> has_refused_large (e :: tr).
 Proof. intros H. apply Exists_cons_tl. exact H. Qed.
 
+Lemma has_refused_app l tr : has_refused_large tr -> has_refused_large (l ++ tr).
+Proof. intros H. induction l as [| e l IH]; [exact H | apply has_refused_cons; exact IH]. Qed.
+
 (* the trace-independent part survives any exchange whose delivered frame is acceptable *)
 Lemma sent_inv0 s fr nr s' r :
   sent s fr nr s' r -> Inv0 s ->
@@ -209,14 +244,21 @@ Lemma sent_inv0 s fr nr s' r :
   Inv0 s'.
 Proof.
   intros Hs [Q T F C B Z1 Z2 Z3] Hud Hfo Hsz.
-  destruct Hs as [e Hr Hd Ht Htr Hdead Hopen Hq Hrands | e Hr Hd Ht Htr Hdead Hopen Hq Hrands
-                 | Hwo Hwd Hd Ht Htr Hdead Hopen Hq Hrands Hreply Hnone].
-  - split; rewrite ?Hq, ?Htr, ?Hd, ?Hrands; try reflexivity; assumption.
-  - split; rewrite ?Hq, ?Htr, ?Hd, ?Hrands; try reflexivity; try assumption.
-    + constructor; [exact I | exact T].
-    + split; [exact I | exact F].
-    + destruct C as [C | C]; [left; exact C | right; apply has_refused_cons; exact C].
-    + constructor; [exact I | exact Z1].
+  destruct Hs as [e mid closing Hr Hd Htr Hmid Hclosing Hq Hrands
+                 | Hwo Hwd Hd Ht Htr Hdead Hopen Hq Hrands Hok Hreply Hnone].
+  - assert (Forall deliver_ok (mid ++ w_trace (fst s)) /\ fo_trace_ok (mid ++ w_trace (fst s))
+            /\ Forall size_ok (mid ++ w_trace (fst s))) as (T1 & F1 & Y1).
+    { destruct Hmid as [-> | [-> | (Ho & Hdd & ->)]]; cbn [app].
+      - auto.
+      - split; [constructor; [exact I | exact T] |]. split; [split; [exact I | exact F] | constructor; [exact I | exact Z1]].
+      - split; [constructor; [apply Hud; assumption | exact T] |].
+        split; [split; [exact Hfo | exact F] | constructor; [exact Hsz | exact Z1]]. }
+    assert (Forall deliver_ok (closing ++ mid ++ w_trace (fst s)) /\ fo_trace_ok (closing ++ mid ++ w_trace (fst s))
+            /\ Forall size_ok (closing ++ mid ++ w_trace (fst s))) as (T2 & F2 & Y2).
+    { destruct Hclosing as [-> | [n ->]]; cbn [app]; [auto |].
+      split; [constructor; [exact I | exact T1] |]. split; [split; [exact I | exact F1] | constructor; [exact I | exact Y1]]. }
+    split; rewrite ?Hq, ?Htr, ?Hd, ?Hrands; try reflexivity; try assumption.
+    destruct C as [C | C]; [left; exact C | right; rewrite app_assoc; apply has_refused_app; exact C].
   - split; rewrite ?Hq, ?Htr, ?Hd, ?Hrands; try reflexivity; try assumption.
     + constructor; [apply Hud; assumption | exact T].
     + split; [exact Hfo | exact F].
@@ -234,11 +276,10 @@ Lemma sent_iconn cfg0 s fr nr s' r :
   iconn s'.
 Proof.
   intros Hs G Hc Heff.
-  destruct Hs as [e Hr Hd Ht Htr Hdead Hopen Hq Hrands | e Hr Hd Ht Htr Hdead Hopen Hq Hrands
-                 | Hwo Hwd Hd Ht Htr Hdead Hopen Hq Hrands Hreply Hnone]; unfold iconn, conn_live in *; rewrite ?Hd, ?Ht, ?Hdead, ?Hopen.
-  - exact Hc.
-  - intros _ _ H. discriminate.
-  - intros Htc _ _. specialize (Hc Htc Hwo Hwd). specialize (Heff Htc).
+  destruct Hs as [e mid closing Hr Hd Htr Hmid Hclosing Hq Hrands
+                 | Hwo Hwd Hd Ht Htr Hdead Hopen Hq Hrands Hok Hreply Hnone]; unfold iconn, conn_live in *.
+  - rewrite Hd. cbn [reset_driver set_opened set_session set_tconn set_sock d_tconn]. discriminate.
+  - rewrite ?Hd, ?Ht, ?Hdead, ?Hopen. intros Htc _ _. specialize (Hc Htc Hwo Hwd). specialize (Heff Htc).
     destruct Hc as (Hm & otid & c & Hcid & Hid & Hin & Hot & Hses).
     pose proof (tstep_effect h (w_t (fst s)) fr (wg_inj _ _ _ (proj1 G))) as (_ & _ & He).
     destruct (tstep h (w_t (fst s)) fr) as [t' rep]. cbn [fst snd] in *.
@@ -252,7 +293,6 @@ Proof.
       * split; [exact Hm |]. exists otid, c. split; [exact Hcid |]. split; [exact Hid |].
         split; [right; exact Hin |]. split; assumption.
 Qed.
-
 (* ================================================================ the frames of the driver *)
 Lemma rr_frame_not_ud ses msg fr : rr_frame ses msg = Ok fr -> forall b, unitdata_ok b fr.
 Proof.
@@ -380,12 +420,12 @@ Proof.
     apply ok_inj in H. subst msg. unfold msg_effect.
     match goal with |- context [parse_mr ?m] =>
       change m with (82 :: 2 :: 32 :: 6 :: 36 :: 1 :: PRIORITY ++ TIMEOUT_TICKS ++ le_enc 2 (blen PLC_INFO_MSG) ++ PLC_INFO_MSG
-                     ++ (if Z.odd (blen PLC_INFO_MSG) then [0] else []) ++ rp) end.
+                     ++ (if Z.odd (blen PLC_INFO_MSG) then [0] else []) ++ match rp with [] => [0; 0] | _ => rp end) end.
     rewrite parse_mr_prefix by lia. reflexivity.
 Qed.
 
-(* ================================================================ driver functions under the guard *)
-Context (cfg0 : tcfg) (flt : faults) (Hlate : late_reply_free flt = true).
+(* ================================================================ driver functions *)
+Context (cfg0 : tcfg) (flt : faults).
 
 (* driver-state updates that the invariant does not look at *)
 Definition dsame0 (d d' : dstate) : Prop :=
@@ -414,7 +454,7 @@ Lemma drv_send_inv s fr nr :
   let r := drv_send h flt s (Ok fr) nr in sent s fr nr (fst r) (snd r) /\ Inv0 (fst r).
 Proof.
   intros I0 Hud Hfo Hsz Hnr. cbv zeta.
-  pose proof (drv_send_sent flt s fr nr Hlate (i_queue _ I0) Hnr) as Hs.
+  pose proof (drv_send_sent flt s fr nr (i_queue _ I0) Hnr) as Hs.
   split; [exact Hs |]. eapply sent_inv0; eassumption.
 Qed.
 
@@ -433,9 +473,10 @@ Lemma generic_unconnected_inv s msg :
   (msg_effect msg = EFo false -> has_refused_large (w_trace (fst s))) ->
   (forall fr, rr_frame (d_session (snd s)) msg = Ok fr -> fo_size_ok fr) ->
   let r := generic_unconnected h flt s msg in
-  Inv0 (fst r) /\ snd (fst r) = snd s
+  Inv0 (fst r) /\ d_ext (snd (fst r)) = d_ext (snd s)
   /\ ((d_tconn (snd s) = true -> msg_effect msg <> EFClose) -> iconn s -> iconn (fst r))
-  /\ (forall truthy value, snd r = Ok (truthy, value) -> delivered_rr s (fst r) msg truthy value).
+  /\ (forall truthy value, snd r = Ok (truthy, value) ->
+        snd (fst r) = snd s /\ delivered_rr s (fst r) msg truthy value).
 Proof.
   intros G I0 Hfo Hsz. cbv zeta. unfold generic_unconnected.
   destruct (rr_frame (d_session (snd s)) msg) as [fr | e] eqn:Ef.
@@ -446,20 +487,22 @@ Proof.
   pose proof (drv_send_inv s fr false I0 (fun _ _ => rr_frame_not_ud _ _ _ Ef _) Hfo' (Hsz fr eq_refl) (fun H => ltac:(discriminate))) as (Hs & I1).
   cbv zeta in *.
   destruct (drv_send h flt s (Ok fr) false) as [s1 r1]. cbn [fst snd] in *.
-  assert (snd s1 = snd s) as Hd by (destruct Hs; assumption).
+  assert (d_ext (snd s1) = d_ext (snd s)) as Hext by (destruct Hs as [? ? ? ? Hd | ? ? Hd]; rewrite Hd; reflexivity).
   assert (((d_tconn (snd s) = true -> msg_effect msg <> EFClose) -> iconn s -> iconn s1)) as Hic.
   { intros Hm Hc. eapply sent_iconn; [exact Hs | exact G | exact Hc |].
     intros Ht. rewrite Heff. destruct (bytes_ok msg); [| exact I].
     specialize (Hm Ht). destruct (msg_effect_cases msg) as [-> | [[l ->] | E]]; try exact I. contradiction. }
   destruct r1 as [[raw |] | e]; cbn [fst snd].
-  - split; [exact I1 |]. split; [exact Hd |]. split; [exact Hic |].
+  - split; [exact I1 |]. split; [exact Hext |]. split; [exact Hic |].
     intros truthy value Hc. unfold classify in Hc. destruct (error_raises KRR raw); [discriminate |].
-    inversion Hc; subst. destruct Hs as [? Hr | ? Hr | ? ? ? ? ? ? ? ? ? Hreply ?]; try discriminate.
+    inversion Hc; subst.
+    destruct Hs as [? ? ? Hr | ? ? Hd ? ? ? ? ? ? ? Hreply ?]; [discriminate |].
+    split; [exact Hd |].
     exists fr, raw. specialize (Hreply raw eq_refl). rewrite Hreply in *. auto 12.
-  - split; [exact I1 |]. split; [exact Hd |]. split; [exact Hic |].
-    intros truthy value _. exfalso. destruct Hs as [? Hr | ? Hr | ? ? ? ? ? ? ? ? ? ? Hnone]; try discriminate.
+  - split; [exact I1 |]. split; [exact Hext |]. split; [exact Hic |].
+    intros truthy value _. exfalso. destruct Hs as [? ? ? Hr | ? ? ? ? ? ? ? ? ? ? ? Hnone]; [discriminate |].
     specialize (Hnone eq_refl). discriminate.
-  - split; [exact I1 |]. split; [exact Hd |]. split; [exact Hic | discriminate].
+  - split; [exact I1 |]. split; [exact Hext |]. split; [exact Hic | discriminate].
 Qed.
 
 Lemma inv0_bytes_fields s : Inv0 s -> bytes_fields (snd s).
@@ -535,12 +578,13 @@ Proof.
   { rewrite Heff. intros E. destruct (i_cfg _ I0) as [C | C]; [cbn [snd] in C; congruence | exact C]. }
   assert (forall fr, rr_frame (d_session d) msg = Ok fr -> fo_size_ok fr) as Hsz.
   { intros fr Hfr. eapply fo_frame_size_ok; [exact Em | exact Hfr | exact (i_dsize _ I0) | exact (proj1 (i_len _ I0)) | exact (proj2 (i_len _ I0))]. }
-  pose proof (generic_unconnected_inv (w, d) msg G I0 Hfo Hsz) as (I1 & Hd & Hic & Hdel). cbv zeta in *.
-  destruct (generic_unconnected h flt (w, d) msg) as [[w1 d1] r1]. cbn [fst snd] in *. subst d1.
-  assert (iconn (w1, d)) as Ic1.
+  pose proof (generic_unconnected_inv (w, d) msg G I0 Hfo Hsz) as (I1 & Hext1 & Hic & Hdel). cbv zeta in *.
+  destruct (generic_unconnected h flt (w, d) msg) as [[w1 d1] r1]. cbn [fst snd] in *.
+  assert (iconn (w1, d1)) as Ic1.
   { apply Hic; [| exact Ic]. intros Ht. congruence. }
-  destruct r1 as [[truthy value] | e]; [| cbn [fst snd]; split; [split; assumption |]; split; [congruence |]; split; discriminate].
-  destruct (Hdel truthy value eq_refl) as (fr & raw & Ef & Ho & Hdd & Ht' & Htr & Hrep & Hdead' & Hopen' & Hv & Hval).
+  destruct r1 as [[truthy value] | e]; [| cbn [fst snd]; split; [split; assumption |]; split; [exact Hext1 |]; split; discriminate].
+  destruct (Hdel truthy value eq_refl) as (Hd1 & fr & raw & Ef & Ho & Hdd & Ht' & Htr & Hrep & Hdead' & Hopen' & Hv & Hval).
+  cbn [snd] in Hd1. subst d1.
   cbn [fst snd] in *.
   pose proof (rr_frame_effect _ _ _ Ef) as Hfe. rewrite Hok, Heff in Hfe.
   pose proof (rr_frame_parse _ _ _ Ef) as Hparse. rewrite Hok in Hparse.
@@ -599,11 +643,12 @@ Qed.
 (* one connected request on the connection the driver holds *)
 Lemma connected_request_seq_inv s sq msg :
   Good h cfg0 s -> Inv s -> d_tconn (snd s) = true ->
-  let r := connected_request_seq h flt s sq msg in Inv (fst r) /\ snd (fst r) = snd s.
+  let r := connected_request_seq h flt s sq msg in
+  Inv (fst r) /\ (forall a, snd r = Ok a -> snd (fst r) = snd s).
 Proof.
   intros G [I0 Ic] Et. cbv zeta. unfold connected_request_seq.
   destruct (ud_frame (d_session (snd s)) (d_cid (snd s)) sq msg) as [fr | e] eqn:Ef.
-  2: { cbn [drv_send fst snd]. split; [split; assumption | reflexivity]. }
+  2: { cbn [drv_send fst snd]. split; [split; assumption | discriminate]. }
   assert (w_open (fst s) = true -> w_dead (fst s) = false -> unitdata_ok (w_t (fst s)) fr) as Hud.
   { intros Ho Hd. eapply ud_frame_ok_live; [exact Ef | apply Ic; assumption]. }
   pose proof (ud_frame_effect _ _ _ _ _ Ef) as Heff.
@@ -612,14 +657,16 @@ Proof.
   pose proof (drv_send_inv s fr false I0 Hud Hfo Hsz (fun H => ltac:(discriminate))) as (Hs & I1). cbv zeta in *.
   assert (iconn (fst (drv_send h flt s (Ok fr) false))) as Ic1.
   { eapply sent_iconn; [exact Hs | exact G | exact Ic |]. intros _. rewrite Heff. exact I. }
-  assert (snd (fst (drv_send h flt s (Ok fr) false)) = snd s) as Hd by (destruct Hs; assumption).
   destruct (drv_send h flt s (Ok fr) false) as [s1 r1]. cbn [fst snd] in *.
-  destruct r1 as [[raw |] | e]; cbn [fst snd]; (split; [split; assumption | exact Hd]).
+  assert (forall o, r1 = Ok o -> snd s1 = snd s) as Hd.
+  { intros o ->. destruct Hs as [? ? ? Hr | ? ? Hd]; [discriminate | exact Hd]. }
+  destruct r1 as [[raw |] | e]; cbn [fst snd]; (split; [split; assumption |]); try discriminate;
+    intros a _; eapply Hd; reflexivity.
 Qed.
 
 Lemma connected_request_inv s msg :
   Good h cfg0 s -> Inv s -> d_tconn (snd s) = true ->
-  let r := connected_request h flt s msg in Inv (fst r) /\ d_tconn (snd (fst r)) = true.
+  let r := connected_request h flt s msg in Inv (fst r).
 Proof.
   intros G I1 Et. cbv zeta. unfold connected_request. destruct s as [w d]. cbn [snd] in Et.
   unfold draw. destruct (cycle_step SEQ_STOP SEQ_START (d_seq d)) as [sq v].
@@ -627,10 +674,10 @@ Proof.
   assert (Inv (w, d1)) as I2 by (eapply inv_dsame; [| | exact I1]; repeat split).
   assert (Good h cfg0 (w, d1)) as G2.
   { eapply soft_good; [| apply G | exact G]. apply (soft_upd (w, d)); try reflexivity. cbn. auto. }
-  pose proof (connected_request_seq_inv (w, d1) sq msg G2 I2 Et) as (I3 & Hd). cbv zeta in *.
+  pose proof (connected_request_seq_inv (w, d1) sq msg G2 I2 Et) as (I3 & _). cbv zeta in *.
   unfold connected_request_seq in *. cbn [snd] in *.
   destruct (drv_send h flt (w, d1) (ud_frame (d_session d1) (d_cid d1) sq msg) false) as [s1 r1].
-  destruct r1 as [[raw |] | e]; cbn [fst snd] in *; (split; [exact I3 | rewrite Hd; exact Et]).
+  destruct r1 as [[raw |] | e]; cbn [fst snd] in *; exact I3.
 Qed.
 
 Lemma generic_connected_inv s msg :
@@ -653,7 +700,7 @@ Proof.
   pose proof (connected_request_seq_inv s sq m G I1 Et) as (I2 & Hd). cbv zeta in *.
   destruct (connected_request_seq h flt s sq m) as [s1 r1]. cbn [fst snd] in *.
   destruct r1 as [[b v] | e]; [| exact I2].
-  assert (d_tconn (snd s1) = true) as Et1 by congruence.
+  assert (d_tconn (snd s1) = true) as Et1 by (rewrite (Hd _ eq_refl); exact Et).
   specialize (IH s1 G1 I2 Et1). cbv zeta in IH.
   destruct (connected_requests h flt s1 rest) as [s2 r2]. cbn [fst snd] in *.
   destruct r2; exact IH.
@@ -689,14 +736,15 @@ Proof.
   { apply fo_size_ok_other. intros l. destruct (register_frame_effect _ _ Ef) as [E' | E']; rewrite E'; discriminate. }
   pose proof (drv_send_inv (w, d) fr false I0 (fun _ _ => register_frame_not_ud _ _ Ef _) Hfo Hsz (fun H => ltac:(discriminate))) as (Hs & I1).
   cbv zeta in *.
-  assert (snd (fst (drv_send h flt (w, d) (Ok fr) false)) = d) as Hd by (destruct Hs; assumption).
+  assert (d_tconn (snd (fst (drv_send h flt (w, d) (Ok fr) false))) = false) as Hd.
+  { destruct Hs as [? ? ? ? Hd | ? ? Hd]; rewrite Hd; [reflexivity | exact Et]. }
   assert (iconn (fst (drv_send h flt (w, d) (Ok fr) false))) as Ic1.
-  { unfold iconn. rewrite Hd, Et. discriminate. }
-  destruct (drv_send h flt (w, d) (Ok fr) false) as [[w1 d1] r1]. cbn [fst snd] in *. subst d1.
+  { unfold iconn. rewrite Hd. discriminate. }
+  destruct (drv_send h flt (w, d) (Ok fr) false) as [[w1 d1] r1]. cbn [fst snd] in *.
   destruct r1 as [[raw |] | e]; cbn [fst snd]; try (split; assumption).
   destruct (register_valid raw); cbn [fst snd]; [| split; assumption].
   split; [eapply inv0_dsame; [| exact I1]; repeat split |].
-  unfold iconn. cbn [fst snd set_session d_tconn]. rewrite Et. discriminate.
+  unfold iconn. cbn [fst snd set_session d_tconn]. rewrite Hd. discriminate.
 Qed.
 
 Lemma urandom_inv0 (w : world) d : Inv0 (w, d) ->
@@ -780,7 +828,7 @@ Proof.
   pose proof (with_forward_open_inv s G I1) as (I2 & T2). cbv zeta in *.
   destruct (with_forward_open h flt s) as [s1 r1]. cbn [fst snd] in *.
   destruct r1 as [[] | e]; [| exact I2].
-  pose proof (connected_request_inv s1 PLC_NAME_MSG G1 I2 (T2 eq_refl)) as (I3 & _). cbv zeta in I3.
+  pose proof (connected_request_inv s1 PLC_NAME_MSG G1 I2 (T2 eq_refl)) as I3. cbv zeta in I3.
   destruct (connected_request h flt s1 PLC_NAME_MSG) as [s2 r2]. cbn [fst snd] in *.
   destruct r2 as [[[|] data] | e]; exact I3.
 Qed.
@@ -848,8 +896,8 @@ Proof.
   assert (msg_effect msg = EFo false -> has_refused_large (w_trace (fst (w, d)))) as Hfo by (rewrite Heff; discriminate).
   assert (forall fr, rr_frame (d_session (snd (w, d))) msg = Ok fr -> fo_size_ok fr) as Hsz.
   { intros fr Hfr. apply fo_size_ok_other. intros l. rewrite (rr_frame_effect _ _ _ Hfr), Heff. destruct (bytes_ok msg); discriminate. }
-  pose proof (generic_unconnected_inv (w, d) msg G I0 Hfo Hsz) as (I1 & Hd & _). cbv zeta in *.
-  destruct (generic_unconnected h flt (w, d) msg) as [[w1 d1] r1]. cbn [fst snd] in *. subst d1.
+  pose proof (generic_unconnected_inv (w, d) msg G I0 Hfo Hsz) as (I1 & _). cbv zeta in *.
+  destruct (generic_unconnected h flt (w, d) msg) as [[w1 d1] r1]. cbn [fst snd] in *.
   destruct r1 as [[[|] value] | e]; cbn [fst snd]; try exact I1.
   eapply inv0_dsame; [| exact I1]. repeat split.
 Qed.
